@@ -244,6 +244,7 @@ type unitsSink struct {
 	stats                    map[string]int
 	ujson                    map[*hx.Units][]byte
 	pkg                      map[*hx.Units]*schema.UnitsDefinition
+	variants                 map[*hx.Units]map[string]*schema.UnitsDefinition
 	perWhat                  map[string]int
 	buf                      []byte
 }
@@ -399,7 +400,63 @@ func unitsGuard(f func() unitsRes) (res unitsRes) {
 }
 
 // pkgCheck runs the same call on the package variable of a built-in set.
+// unitsVariants: the same definition obtained without NewUnits - a struct literal, a round trip
+// through encoding/json, and the units of an integer property of a scope rebuilt from its own
+// description (what an engine holds after reading a plugin's schema). All of them must parse and
+// format exactly like the constructor-built definition.
+func unitsVariants(u *hx.Units) map[string]*schema.UnitsDefinition {
+	out := map[string]*schema.UnitsDefinition{}
+	built := u.Build()
+	out["struct literal"] = &schema.UnitsDefinition{BaseUnitValue: built.BaseUnitValue, MultipliersValue: built.MultipliersValue}
+	if b, err := json.Marshal(built); err == nil {
+		var d schema.UnitsDefinition
+		if json.Unmarshal(b, &d) == nil && d.BaseUnitValue != nil {
+			out["encoding/json"] = &d
+		}
+	}
+	func() {
+		defer func() { _ = recover() }()
+		sc := schema.NewScopeSchema(schema.NewObjectSchema("U", map[string]*schema.PropertySchema{
+			"n": schema.NewPropertySchema(schema.NewIntSchema(nil, nil, u.Build()), nil, false, nil, nil, nil, nil, nil)}))
+		desc, err := sc.SelfSerialize()
+		if err != nil {
+			return
+		}
+		re, err := schema.UnserializeScope(desc)
+		if err != nil {
+			return
+		}
+		if it, ok := re.Objects()["U"].Properties()["n"].Type().(*schema.IntSchema); ok && it.UnitsValue != nil {
+			out["rebuilt from the description"] = it.UnitsValue
+		}
+	}()
+	return out
+}
+
 func (s *unitsSink) pkgCheck(op string, u *hx.Units, id int, input string, fresh unitsRes, call func(d *schema.UnitsDefinition) unitsRes) {
+	if s.variants == nil {
+		s.variants = map[*hx.Units]map[string]*schema.UnitsDefinition{}
+	}
+	vs, seen := s.variants[u]
+	if !seen {
+		vs = unitsVariants(u)
+		if len(s.variants) > 4000 {
+			s.variants = map[*hx.Units]map[string]*schema.UnitsDefinition{}
+		}
+		s.variants[u] = vs
+	}
+	for how, d := range vs {
+		s.stats["variant_checked"]++
+		other := unitsGuard(func() unitsRes { return call(d) })
+		if other.key(op) != fresh.key(op) {
+			var ids []int
+			if id > 0 {
+				ids = []int{id}
+			}
+			s.finding("a definition not built by NewUnits ("+how+") differs from the constructor-built one", ids, u, input,
+				"op "+op, "NewUnits "+fresh.show(op), how+" "+other.show(op))
+		}
+	}
 	pv, ok := s.pkg[u]
 	if !ok {
 		return
